@@ -488,7 +488,8 @@ def run_case(params: dict) -> dict:
             if kind == 'JoinRoom':
                 alt = rm.apply(model, n, join_replaces=True)
                 real = real_room(client, n['room'])
-                if (real is not None and alt['rooms'][n['room']]['users'] != nxt['rooms'][n['room']]['users']
+                if (real is not None
+                        and sorted(alt['rooms'][n['room']]['users']) != sorted(nxt['rooms'][n['room']]['users'])
                         and sorted(real['users']) == sorted(alt['rooms'][n['room']]['users'])):
                     nxt = alt
                     runner.add_cover(res, 'join_user_list_reading', 'replace')
